@@ -1,6 +1,7 @@
 """C12 — every path the library returns is a real path with the reported length."""
 import sys
 from common import *  # noqa
+sys.path.insert(0, os.path.join(VERIF, 'translate')); import cores  # noqa: E402
 import dist_common as dc
 
 PID = 'C12'
@@ -19,7 +20,13 @@ def main():
                        'every watchdog hit is counted per routine (coverage.timeouts); a routine timing out on more than 20 % of its calls is reported as a break',
                        'navigation_wu calls that hit the watchdog (greedy walk cycling with max_hops=None) are counted as timeouts: termination is not claimed',
                        "inexact float lengths ('log' transform, decimal lengths k/10): validated against the oracle by tolerance 1e-9 only, no model correspondence"]
+    # T-gen: re-extract the core update steps from /repo's current source (translate/cores.py); the generated
+    # obligations say the extracted IR is the reference program whose interpreter is proved equal to the model
+    ck.cov['cores'] = cores.generate(families=['floyd'])
+    for p_ in ck.cov['cores']['problems']:
+        ck.corr_break('core extractor (translate/cores.py)', p_)
     ok = ck.lean_gate(['BctVerif.Props.C12'], extra_modules=['BctVerif.Model.Dist'])
+    ck.lean_gate([], gen_modules=['BctVerif.Gen.CoresFloyd'])
     if ck.tier == 'thorough' and ok:
         ck.leanchecker(['BctVerif.Props.C12', 'BctVerif.Model.Dist'])
     rp = json.load(open(ck.replay)) if ck.replay else None
